@@ -18,7 +18,7 @@ def beq(tag, a, b):
     return '%s == %s' % (a, b)
 
 
-CHUNK = 64
+CHUNK = 16
 # ---------------------------------------------------------------------------- read swizzles
 IMPL = {
     'func': dict(defines=['GLM_FORCE_SWIZZLE'], flags=[], call=lambda v, pat: '%s.%s()' % (v, pat), sets=['xyzw', 'rgba', 'stpq'],
@@ -36,14 +36,16 @@ GTX_MISSING = []
 drivers = {}
 for impl, cfg in IMPL.items():
     incl = ['<glm/glm.hpp>'] + (['<glm/gtx/vec_swizzle.hpp>'] if impl == 'gtx' else [])
-    d = P.driver('c17_swz_' + impl, incl)
-    drivers[impl] = d
-    b = P.build(d, 'flat', defines=cfg['defines'], flags=cfg['flags'], tag='swz_' + impl)
     for tag in (['f32', 'i32'] if impl != 'gtx' else ['f32']):
         T = cpp_type(tag)
         for Ls in (1, 2, 3, 4):
             if impl != 'gtx' and Ls == 1:
                 continue  # vec1 has no swizzle members
+            # one driver per (implementation, element type, source length): small translation units, compiled in parallel
+            btag = 'swz_%s_%s_%d' % (impl, tag, Ls)
+            d = P.driver('c17_' + btag, incl)
+            drivers[btag] = d
+            b = P.build(d, 'flat', defines=cfg['defines'], flags=cfg['flags'], tag=btag)
             for Lo in (2, 3, 4) if impl != 'func' or True else ():
                 for setname in cfg['sets']:
                     if impl == 'oper' and Ls == 2 and Lo == 3:
@@ -65,7 +67,7 @@ for impl, cfg in IMPL.items():
                         d.shim(name, 'void', vec_ins(Ls, tag, 'a'), ' '.join(body), outs=[(T, 'out', len(chunk) * Lo)])
                         quick = (tag == 'f32') or (setname == 'xyzw' and Ls == 4)
                         contracts.append((name, '%s %s..%s on vec<%d,%s>' % (cfg['real'], chunk[0], chunk[-1], Ls, T),
-                                          dict(ensures=ens, build='swz_' + impl, tier='quick' if quick else 'thorough')))
+                                          dict(ensures=ens, build=btag, tier='quick' if quick else 'thorough')))
 # ---------------------------------------------------------------------------- writable swizzles (operator form only)
 def probe_assignable():
     """which permutation swizzles does GLM accept on the left of '='?  (compile-time fact, probed with std::is_assignable;
@@ -99,10 +101,11 @@ def probe_assignable():
 
 ASSIGNABLE = probe_assignable()
 NOT_ASSIGNABLE = []
-d = drivers['oper']
 for tag in ('f32',):
     T = cpp_type(tag)
     for Ls in (2, 3, 4):
+        d = P.driver('c17_swzwrite_%s_%d' % (tag, Ls), ['<glm/glm.hpp>'])
+        P.build(d, 'flat', defines=IMPL['oper']['defines'], flags=IMPL['oper']['flags'], tag='swzwrite_%s_%d' % (tag, Ls))
         for Lo in range(2, Ls + 1):
             for setname in ('xyzw', 'rgba', 'stpq'):
                 L = LETTERS[setname]
@@ -125,7 +128,7 @@ for tag in ('f32',):
                             ens.append(('%s_keeps_%s' % (pat, ch), beq(tag, 'out[%d]' % (j * Ls + comp), 'a%d' % comp)))
                 d.shim(name, 'void', vec_ins(Ls, tag, 'a') + vec_ins(Lo, tag, 'w'), ' '.join(body), outs=[(T, 'out', len(pats) * Ls)])
                 contracts.append((name, 'glm/detail/_swizzle.hpp  writable swizzle v.%s = w ... on vec<%d,%s>' % (pats[0], Ls, T),
-                                  dict(ensures=ens, build='swz_oper', tier='quick')))
+                                  dict(ensures=ens, build='swzwrite_%s_%d' % (tag, Ls), tier='quick')))
 
 # ---------------------------------------------------------------------------- constructors
 dc = P.driver('c17_ctor', ['<glm/glm.hpp>', '<glm/gtc/quaternion.hpp>'])
